@@ -6,7 +6,19 @@ sys.path.insert(0, "/verif")
 from jtsa.runner import PROPS, analyse, load_known, match_known
 from jtsa.core import AnalysisError
 
-src = sys.argv[1] if len(sys.argv) > 1 else "/verif/benign"
+src = "/verif/benign"
+only = None
+props = list(PROPS)
+args = sys.argv[1:]
+while args:
+    a = args.pop(0)
+    if a == "--only":
+        only = set(args.pop(0).split(","))
+    elif a == "--props":
+        props = args.pop(0).split(",")
+    else:
+        src = a
+PROPS = props
 base = {}
 for p in PROPS:
     try:
@@ -16,6 +28,8 @@ for p in PROPS:
 res = {}
 for d in sorted(glob.glob(os.path.join(src, "*", "*.diff"))):
     name = os.path.relpath(d, src)
+    if only and name.replace(".diff", "") not in only:
+        continue
     tmp = tempfile.mkdtemp(prefix="jtsa_rf_")
     try:
         shutil.copytree("/repo/jaxtyping", os.path.join(tmp, "jaxtyping"), ignore=shutil.ignore_patterns("__pycache__"))
@@ -47,4 +61,5 @@ for k, v in res.items():
         else:
             print("     ", p, lst)
 print(f"{len(res)} refactorings: {nv} (refactoring, property) pairs with VIOLATION, {ne} with ANALYSIS-ERROR")
-json.dump(res, open("/verif/notes/benign_eval.json", "w"), indent=1)
+if not only and props == PROPS and len(PROPS) >= 20:
+    json.dump(res, open("/verif/notes/benign_eval.json", "w"), indent=1)
